@@ -30,6 +30,9 @@
 #ifndef C03_PARTS
 #define C03_PARTS 7
 #endif
+#ifndef C03_TRUTH31	/* thorough: also the truth table of the group of order 31 (8.2 M verifications) */
+#define C03_TRUTH31 C03_HEAVY
+#endif
 #ifndef C03_SKIP_ZERO	/* ASan builds: see NOTES.md (zero scalars make the current library read uninitialised stack) */
 #define C03_SKIP_ZERO 0
 #endif
@@ -767,7 +770,7 @@ main(int argc, char **argv) {
 		truth_all("t13");
 		truth_all("t17");
 		truth_all("t11");
-		if (vh_thorough)
+		if (vh_thorough && C03_TRUTH31)
 			truth_all("t23m3");
 		if (vh_thorough && C03_HEAVY)
 			truth_all("t31a0");
